@@ -71,10 +71,10 @@ func CompareRaster(h *Header, s *RasterScene, spaces []int) (ms []core.Mismatch)
 			ms = append(ms, core.Mismatch{Signature: "raster-panic", Detail: fmt.Sprint(r)})
 		}
 	}()
-	c := BuildCanvas(h, s.Prog)
-	before := snapshot(c)
 	progJ := string(mustJSON(s.Prog))
 	for _, sp := range spaces {
+		c := BuildCanvas(h, s.Prog) // a fresh canvas per colour space, so that every render starts from the requested paints
+		before := snapshot(c)
 		var cs canvas.ColorSpace = canvas.LinearColorSpace{}
 		name := "linear"
 		switch sp {
@@ -90,8 +90,20 @@ func CompareRaster(h *Header, s *RasterScene, spaces []int) (ms []core.Mismatch)
 			return
 		}
 		img2 := rasterizer.Draw(c, resolution(s.Res), cs)
+		gradMutated := false
+		if after := snapshot(c); !reflect.DeepEqual(before, after) {
+			sig := "raster-canvas-mutated"
+			if sp != 0 && s.Feat["grad"] && onlyStopsDiffer(before, after) {
+				sig, gradMutated = "raster-gradient-stops-mutated:non-linear-colour-space", true
+			}
+			ms = append(ms, core.Mismatch{Signature: sig, Detail: fmt.Sprintf("the canvas replays differently after rasterizing (res %d space %s): before %v after %v; program %s", s.Res, name, stopsOf(before), stopsOf(after), progJ)})
+		}
 		if !bytes.Equal(img.Pix, img2.Pix) {
-			ms = append(ms, core.Mismatch{Signature: "raster-second-render-differs", Detail: fmt.Sprintf("res %d space %s program %s", s.Res, name, progJ)})
+			sig := "raster-second-render-differs"
+			if gradMutated {
+				sig = "raster-gradient-stops-mutated:non-linear-colour-space" // consequence: the second render starts from the converted stops
+			}
+			ms = append(ms, core.Mismatch{Signature: sig, Detail: fmt.Sprintf("second render differs: res %d space %s program %s", s.Res, name, progJ)})
 		}
 		// pixels: every mismatching pixel is attributed to one class
 		type bad struct {
@@ -140,11 +152,32 @@ func CompareRaster(h *Header, s *RasterScene, spaces []int) (ms []core.Mismatch)
 				s.Res, name, b0.x, b0.y, b0.got, b0.exp, PaintNames, bads, progJ)})
 		}
 	}
-	after := snapshot(c)
-	if !reflect.DeepEqual(before, after) {
-		ms = append(ms, core.Mismatch{Signature: "raster-canvas-mutated", Detail: "the canvas replays differently after rasterizing; program " + progJ})
-	}
 	return
+}
+
+func stopsOf(es []recEvent) [][]canvas.Stop {
+	var out [][]canvas.Stop
+	for _, e := range es {
+		if e.Stops != nil {
+			out = append(out, e.Stops)
+		}
+	}
+	return out
+}
+
+// onlyStopsDiffer: the two recordings are identical except for the stop colours of gradient fills.
+func onlyStopsDiffer(a, b []recEvent) bool {
+	if len(a) != len(b) {
+		return false
+	}
+	for i := range a {
+		x, y := a[i], b[i]
+		x.Stops, y.Stops = nil, nil
+		if !reflect.DeepEqual(x, y) {
+			return false
+		}
+	}
+	return true
 }
 
 func pixelOK(h *Header, code int, got [4]uint8, space int) bool {
